@@ -509,6 +509,8 @@ OnFinal(m, e) ==
       left == {k \in RangeOf(e.keys) : LevelOfKey(k) > 0}
       lost == {t \in DOMAIN m.msgs : m.msgs[t].ret = "ok" /\ m.msgs[t].deliv = 0 /\ ~m.hostile /\ m.damaged = {}}
       unackedIn == {i \in DOMAIN m.inb : m.inb[i].returned > 0 /\ ~m.inb[i].done /\ ~m.hostile}
+      \* a delivery whose handshake completed although ReadSlices never returned the message
+      swallowed == {i \in DOMAIN m.inb : m.inb[i].returned = 0 /\ m.inb[i].done /\ ~m.hostile /\ m.inb[i].id \notin m.ambig /\ ~m.frame}
       sameSeq == Len(m.retSeq) = Len(m.sentSeq)
                  /\ \A i \in DOMAIN m.retSeq : m.retSeq[i][1] = m.sentSeq[i][1] /\ (m.retSeq[i][2] = 0 \/ m.retSeq[i][2] = m.sentSeq[i][2])
       notReset == {c \in DOMAIN m.conns : m.conns[c].mustReset /\ ~m.conns[c].closedByClient}
@@ -520,6 +522,7 @@ OnFinal(m, e) ==
           \cup If(m.phase = "epi" /\ left # {} /\ ~m.hostile /\ m.damaged = {} /\ ~m.closedEarly, "C01_Drained")
           \cup If(m.phase = "epi" /\ lost # {} /\ ~m.closedEarly, "C01_Delivered")
           \cup If(m.phase = "epi" /\ unackedIn # {} /\ ~m.closedEarly, "C07_ReturnedEventuallyAcked")
+          \cup If(swallowed # {}, "C04_ReturnedInCycle")
           \cup If(m.phase = "epi" /\ m.rsClosed
                   /\ (\E t \in DOMAIN m.msgs : m.msgs[t].gen = m.gen /\ m.msgs[t].ret = "ok" /\ m.msgs[t].exc = "open"
                                                  /\ ~m.msgs[t].exAfterClose), "C12_Exchanges"))
